@@ -117,6 +117,10 @@ pub fn history_case(g: &mut Gen, cfg: &PicCfg, max_len: usize) -> Verdict {
                 kinds_seen.push(if k == 1 { 'P' } else { 'D' });
                 let mut pic = gen_inter_pic(g, cfg, &like, ptype, true);
                 pic.hdr.tr = tr;
+                if last.is_none() && pic.hdr.plus == PlusForm::Brief {
+                    // a header that does not restate its format needs an earlier picture to take it from
+                    pic.hdr.plus = PlusForm::Full;
+                }
                 let bytes = encode_pic(&pic);
                 key = key.rotate_left(9) ^ fnv64(&bytes);
                 if g.want_desc {
